@@ -2,7 +2,7 @@
 
 Explicit-state search over operation histories on the real process-global state (the engine cache of
 merchant_utils, the expression and regex caches of expr_parser, per-engine caches).  A state is the
-history that reaches it.  For every history h of length <= D over 23 operations (8 loads incl. a
+history that reaches it.  For every history h of length <= D over 25 operations (8 loads incl. a
 reload that rewrites a file on disk, 5 classifications, 2 engine matches, 4 expression evaluations) the
 worker forks a child that replays h on the real code from the pristine import-time state; the child then
 forks one grandchild per observation operation o, which executes o in the state reached by h.  Invariant
@@ -13,6 +13,7 @@ deep-equal before and after.
 import copy
 import datetime as dt
 import itertools
+import json
 import os
 import pickle
 import shutil
@@ -26,7 +27,7 @@ from mc.core import harness as H
 
 PROPERTY = "C07"
 LEVEL = "model_checking"
-RULE = ("states = operation histories (no merging: a state is its history) of length 0..D (D=3 quick, 4 thorough; histories of length D start with a load or reload) over 23 operations; "
+RULE = ("states = operation histories (no merging: a state is its history) of length 0..D (D=3 quick, 4 thorough; histories of length D start with a load or reload) over 25 operations; "
         "transitions = (history, observation) pairs, every one executed on the real code in a process forked from the state the history reached; "
         "reference = the same observation in a fresh process after only the most recent load")
 ASSUMPTIONS = ["a process forked from the harness worker (tally imported, nothing loaded or evaluated) is the 'fresh process' reference",
@@ -120,7 +121,7 @@ FUZZY_TEXT = "STARBUKCS GIFT RELOAD AT STARBUCKS 04521 SEATTLE WA"
 LOADS = [("load", "A.rules", "first_match"), ("load", "A.rules", "most_specific"), ("load", "B.rules", "first_match"),
          ("load", "C.csv", "first_match"), ("load", "D.csv", "first_match"), ("load", "bad.rules", "first_match"),
          ("load", None, "first_match"), ("reload", "A.rules", "first_match")]
-OBS = [("classify", i) for i in range(5)] + [("match", 0), ("match", 2)] + [("eval", i) for i in range(8)]
+OBS = [("classify", i) for i in range(5)] + [("match", 0), ("match", 2)] + [("eval", i) for i in range(8)] + [("cli", "budgetR"), ("cli", "budgetC")]
 OPS = LOADS + OBS
 
 
@@ -148,6 +149,18 @@ def fresh_world():
     for name, text in (("A.rules", A_RULES), ("B.rules", B_RULES), ("C.csv", C_CSV), ("D.csv", D_CSV), ("bad.rules", BAD_RULES)):
         with open(os.path.join(d, name), "w", encoding="utf-8") as f:
             f.write(text)
+    # two small budgets for whole `tally up` runs inside the same process: one with a merchants.rules file, one with a legacy CSV
+    stmt = "Date,Description,Amount\n01/15/2025,NETFLIX 123,50.00\n02/01/2025,12345,500.00\n03/01/2025,ABC,99.75\n"
+    for name, rules_name, rules_text, extra in (("budgetR", "merchants.rules", B_RULES, "merchants_file: config/merchants.rules\n"),
+                                                ("budgetC", "merchant_categories.csv", C_CSV, "")):
+        os.makedirs(os.path.join(d, name, "config"))
+        os.makedirs(os.path.join(d, name, "data"))
+        with open(os.path.join(d, name, "data", "s.csv"), "w") as f:
+            f.write(stmt)
+        with open(os.path.join(d, name, "config", rules_name), "w", encoding="utf-8") as f:
+            f.write(rules_text)
+        with open(os.path.join(d, name, "config", "settings.yaml"), "w") as f:
+            f.write("year: 2025\n" + extra + 'data_sources:\n  - name: Bank\n    file: data/s.csv\n    format: "{date:%m/%d/%Y},{description},{amount}"\n')
     return World(d)
 
 
@@ -199,6 +212,35 @@ def do_op(w, op):
             obs = {"exception": f"{type(e).__name__}: {e}"}
         obs["mutated"] = [] if txn == before else ["transaction"]
         return obs
+    if kind == "cli":
+        # a complete `tally up --format json` on one of the budgets, in THIS process (what a long-lived caller of tally.cli.main does)
+        import contextlib
+        import io
+        import sys
+        import tally.cli as cli
+        cwd, argv = os.getcwd(), sys.argv
+        out, err = io.StringIO(), io.StringIO()
+        try:
+            os.chdir(w.path(op[1]))
+            sys.argv = ["tally", "up", "--format", "json"]
+            with contextlib.redirect_stdout(out), contextlib.redirect_stderr(err):
+                try:
+                    cli.main()
+                    code = 0
+                except SystemExit as e:
+                    code = e.code or 0
+        except Exception as e:  # noqa
+            return {"values": f"EXC {type(e).__name__}: {e}", "mutated": []}
+        finally:
+            os.chdir(cwd)
+            sys.argv = argv
+        try:
+            text = out.getvalue()
+            data = json.loads(text[text.index("\n{"):] if "\n{" in text else text[text.index("{"):])
+            vals = sorted((m["name"], m["category"], m["subcategory"], sorted(m.get("tags", []))) for m in data["merchants"])
+        except Exception as e:  # noqa
+            vals = f"exit {code}: no JSON report ({type(e).__name__})"
+        return {"values": vals, "mutated": []}
     if kind == "eval":
         res = []
         for t in (TXNS[2], TXNS[4], {"description": FUZZY_TEXT, "amount": 1.0}):
@@ -250,8 +292,9 @@ def _run_in_child(fn):
     return val
 
 
-def explore_history(hist):
-    """In a child forked from the pristine worker: replay hist, then fork one grandchild per observation."""
+def explore_history(hist, with_cli=True):
+    """In a child forked from the pristine worker: replay hist, then fork one grandchild per observation
+    (whole-CLI observations, the costly ones, only when asked: None stands for "not observed")."""
     def child():
         w = fresh_world()
         try:
@@ -259,6 +302,9 @@ def explore_history(hist):
                 do_op(w, OPS[i])
             out = []
             for oi in range(len(LOADS), len(OPS)):
+                if OPS[oi][0] == "cli" and not with_cli:
+                    out.append(None)
+                    continue
                 out.append(_run_in_child(lambda oi=oi: do_op(w, OPS[oi])))
             return out
         finally:
@@ -305,12 +351,19 @@ def _worker(args):
                 key = ref_key(hist)
                 if key not in refs:
                     refs[key] = reference_for(key)
-                got = explore_history(hist)
+                # whole command-line runs are observed after every history one shorter than the longest (they still occur INSIDE the longest)
+                got = explore_history(hist, with_cli=(n < depth or n < 3))
                 agg["states"] += 1
                 agg["depth"] = max(agg["depth"], n + 1)
+                # a whole `tally up` run loads rules of its own: library observations made after one (and before the next explicit load) have
+                # no well-defined "current rules" and are not judged; the CLI observations themselves are always judged
+                last_load = max([j for j, o in enumerate(hist) if o < len(LOADS)], default=-1)
+                cli_after = any(OPS[o][0] == "cli" for o in hist[last_load + 1:])
                 for k, (g, r) in enumerate(zip(got, refs[key])):
-                    agg["transitions"] += 1
                     oi = len(LOADS) + k
+                    if g is None or (cli_after and OPS[oi][0] in ("classify", "match")):
+                        continue
+                    agg["transitions"] += 1
                     # observations that do not use the loaded rules have the no-load reference too
                     agg["outcomes"][H.jdump(g, sort_keys=True)[:160]] += 1
                     if g != r:
